@@ -752,9 +752,10 @@ def octal_to_dec_both_trees(
         return Some(SemPredEvalResult(None))
 
     decimal_number = int(str(decimal))
-    octal_number = int(str(octal))
+    # The digits of `octal` are to be read in base 8.
+    octal_number = int(str(octal), 8)
 
-    return Some(SemPredEvalResult(int(oct(octal_number)[2:]) == decimal_number))
+    return Some(SemPredEvalResult(octal_number == decimal_number))
 
 
 def OCTAL_TO_DEC_PREDICATE(graph, octal_start, decimal_start):
